@@ -690,7 +690,15 @@ class Problem(  # type: ignore[misc]
                 or constraint.is_at_most_once()
                 or constraint.is_always()
             ), "trajectory constraint not in the correct form"
-        self._trajectory_constraints.append(constraint.simplify())
+        simplified = constraint.simplify()
+        if simplified.is_bool_constant():
+            if simplified.bool_constant_value():
+                # trivially satisfied: nothing to record
+                return
+            # unsatisfiable: keep the constraint in its temporal form, a bare `false` would
+            # neither be a trajectory constraint nor be seen as a state invariant
+            simplified = constraint
+        self._trajectory_constraints.append(simplified)
 
     def clear_trajectory_constraints(self):
         """Removes the trajectory_constraints."""
